@@ -48,7 +48,7 @@ Proof. intros t defs w H. apply MatcherPermP.C08_index_loses_nothing. eapply par
 From Coq Require Import NArith ZArith List Bool.
 From CA Require Import Model.Lexer Model.Parser Model.BigIntOps Model.Evaluator Model.Matcher Model.Resolver
   Model.StaticKnown Model.ResolverS Spec.StaticSpec
-  Proofs.StaticKnownP Proofs.ResolverSSimP Proofs.ResolverSTopP Proofs.ResolverSRefuteP.
+  Proofs.ResolverFixP Proofs.StaticKnownP Proofs.ResolverSSimP Proofs.ResolverSTopP Proofs.ResolverSRefuteP.
 Import ListNotations.
 Open Scope Z_scope.
 
@@ -108,18 +108,20 @@ Proof. exact assembleS_off. Qed.
 
 (* the switch theorem.  For every program and budget b exactly one of three things happens:
    the two settings give the identical answer (bits, symbols, pass count, or both fail);
-   or the optimised run succeeds in ONE pass and the other run fails at budget 1 and gives the same bits and symbols in
-   exactly two passes at every budget >= 2 (the situation of finding F70);
-   or b >= 2, the optimised run fails (its confirming pass does), and so does the other run at budget 2. *)
+   or the optimised run succeeds in ONE pass, with a certified result (a fixed point of the strict unoptimised pass), and
+   the other run fails at budget 1 and gives the same bits and symbols in exactly two passes at every budget >= 2 (the
+   situation of finding F70);
+   or b >= 2 and both fail. *)
 Theorem C08_static_switch : forall indexed defs names ns,
   reserved_free names -> canonical (length names) ns -> data_static_ok ns -> consts_asm_free ns -> matches_kinded indexed defs ns ->
   forall b,
   assembleS true true true indexed defs names ns b = assembleS true true false indexed defs names ns b \/
   (exists o s, (1 <= b)%nat /\ assembleS true true true indexed defs names ns b = Some (o, s, 1%nat) /\
                (b = 1%nat -> assembleS true true false indexed defs names ns b = None) /\
-               ((2 <= b)%nat -> assembleS true true false indexed defs names ns b = Some (o, s, 2%nat))) \/
+               ((2 <= b)%nat -> assembleS true true false indexed defs names ns b = Some (o, s, 2%nat)) /\
+               exists st, Certified names defs ns st /\ s = s_sym st /\ o = build_output ns st) \/
   ((2 <= b)%nat /\ assembleS true true true indexed defs names ns b = None /\
-   (b = 2%nat -> assembleS true true false indexed defs names ns b = None)).
+   assembleS true true false indexed defs names ns b = None).
 Proof. exact static_switch_cases. Qed.
 
 (* hence: whenever both settings succeed they give identical bits and symbol values; the pass counts are equal or 1 and 2 *)
@@ -139,6 +141,21 @@ Theorem C08_static_switch_fwd : forall indexed defs names ns,
   exists n', assembleS true true false indexed defs names ns b = Some (o, s, n') /\ counts_ok n n'.
 Proof. exact static_switch_fwd. Qed.
 
+(* every success without the optimisation is a success with it, at every budget, same bits and symbols *)
+Theorem C08_static_switch_bwd : forall indexed defs names ns,
+  reserved_free names -> canonical (length names) ns -> data_static_ok ns -> consts_asm_free ns -> matches_kinded indexed defs ns ->
+  forall b o s n',
+  assembleS true true false indexed defs names ns b = Some (o, s, n') ->
+  exists n, assembleS true true true indexed defs names ns b = Some (o, s, n) /\ counts_ok n n'.
+Proof. exact static_switch_bwd. Qed.
+
+(* so for every budget >= 2 the same programs succeed and the same programs fail *)
+Theorem C08_static_switch_success : forall indexed defs names ns,
+  reserved_free names -> canonical (length names) ns -> data_static_ok ns -> consts_asm_free ns -> matches_kinded indexed defs ns ->
+  forall b, (2 <= b)%nat ->
+  (assembleS true true true indexed defs names ns b = None <-> assembleS true true false indexed defs names ns b = None).
+Proof. exact static_switch_success. Qed.
+
 (* at budget 1 the optimised run may succeed alone, and then in one pass *)
 Theorem C08_static_switch_budget1 : forall indexed defs names ns,
   reserved_free names -> canonical (length names) ns -> data_static_ok ns -> consts_asm_free ns -> matches_kinded indexed defs ns ->
@@ -148,14 +165,14 @@ Theorem C08_static_switch_budget1 : forall indexed defs names ns,
   (n = 1%nat /\ assembleS true true false indexed defs names ns 1 = None).
 Proof. exact static_switch_budget1. Qed.
 
-(* every success without the optimisation is a success with it -- proved for budgets <= 2; for b >= 3 the missing case
-   is the one-pass situation in which the optimised run's confirming pass fails (third alternative of C08_static_switch) *)
-Theorem C08_static_switch_bwd_partial : forall indexed defs names ns,
+(* every success of the optimised run (any budget, including the lone success at budget 1) carries the certificate of
+   C02: its final state is a fixed point of the strict pass of the UNoptimised resolver, from which the output is built *)
+Theorem C08_static_on_certified : forall indexed defs names ns,
   reserved_free names -> canonical (length names) ns -> data_static_ok ns -> consts_asm_free ns -> matches_kinded indexed defs ns ->
-  forall b o s n', (b <= 2)%nat ->
-  assembleS true true false indexed defs names ns b = Some (o, s, n') ->
-  exists n, assembleS true true true indexed defs names ns b = Some (o, s, n) /\ counts_ok n n'.
-Proof. exact static_switch_bwd_partial. Qed.
+  forall b o s n,
+  assembleS true true true indexed defs names ns b = Some (o, s, n) ->
+  exists st, Certified names defs ns st /\ s = s_sym st /\ o = build_output ns st.
+Proof. exact static_on_certified. Qed.
 
 (* the literal statement of C08 for this switch ("for every budget") is false: `#d8 1` at budget 1 (finding F70) *)
 Theorem C08_static_switch_refuted :
